@@ -1208,8 +1208,157 @@ func c18Num(c *Ctx, r *Report) {
 			}
 		}
 	}
+	// path form of the same demand: from a branch that tests the token's text, or ParseInt's answer, every way out of
+	// the function passes the ParseFloat call, except the way on which ParseInt accepted the token. (The dominating-
+	// guard form above does not see a ParseFloat that sits at a join: "no point: ParseInt, else give up unless out of
+	// range; then ParseFloat".)
+	if bad == "" && pi != nil {
+		derivedFromPi := func(v ssa.Value) bool {
+			seen := map[ssa.Value]bool{}
+			var walk func(v ssa.Value, d int) bool
+			walk = func(v ssa.Value, d int) bool {
+				if v == nil || d > 6 || seen[v] {
+					return false
+				}
+				seen[v] = true
+				switch t := v.(type) {
+				case *ssa.Call:
+					if t == pi {
+						return true
+					}
+					for _, a := range t.Call.Args {
+						if walk(a, d+1) {
+							return true
+						}
+					}
+				case *ssa.Extract:
+					return walk(t.Tuple, d+1)
+				case *ssa.BinOp:
+					return walk(t.X, d+1) || walk(t.Y, d+1)
+				case *ssa.UnOp:
+					return walk(t.X, d+1)
+				case *ssa.Phi:
+					for _, e := range t.Edges {
+						if walk(e, d+1) {
+							return true
+						}
+					}
+				case *ssa.ChangeInterface:
+					return walk(t.X, d+1)
+				case *ssa.MakeInterface:
+					return walk(t.X, d+1)
+				}
+				return false
+			}
+			return walk(v, 0)
+		}
+		// the edge on which ParseInt accepted: err == nil (true edge) / err != nil (false edge)
+		type edge struct{ from, to *ssa.BasicBlock }
+		okEdge := map[edge]bool{}
+		for _, b := range rv.Blocks {
+			ifi, isIf := b.Instrs[len(b.Instrs)-1].(*ssa.If)
+			if !isIf {
+				continue
+			}
+			if bo, isB := ifi.Cond.(*ssa.BinOp); isB && (bo.Op == token.EQL || bo.Op == token.NEQ) {
+				var other ssa.Value
+				if isNilConst(bo.Y) {
+					other = bo.X
+				} else if isNilConst(bo.X) {
+					other = bo.Y
+				}
+				if ex, isE := other.(*ssa.Extract); isE && ex.Tuple == ssa.Value(pi) && ex.Index == 1 {
+					if bo.Op == token.EQL {
+						okEdge[edge{b, b.Succs[0]}] = true
+					} else {
+						okEdge[edge{b, b.Succs[1]}] = true
+					}
+				}
+			}
+		}
+		escapes := func(from, start *ssa.BasicBlock) bool {
+			if okEdge[edge{from, start}] {
+				return false
+			}
+			seen := map[*ssa.BasicBlock]bool{}
+			var dfs func(b *ssa.BasicBlock) bool
+			dfs = func(b *ssa.BasicBlock) bool {
+				if b == pf.Block() || seen[b] {
+					return false
+				}
+				seen[b] = true
+				if _, isRet := b.Instrs[len(b.Instrs)-1].(*ssa.Return); isRet {
+					return true
+				}
+				for _, s := range b.Succs {
+					if okEdge[edge{b, s}] {
+						continue
+					}
+					if dfs(s) {
+						return true
+					}
+				}
+				return false
+			}
+			return dfs(start)
+		}
+		// only branches between the token and the conversions: those from which ParseFloat or ParseInt can still be reached
+		reachesConv := func(b *ssa.BasicBlock) bool {
+			seen := map[*ssa.BasicBlock]bool{}
+			var dfs func(b *ssa.BasicBlock) bool
+			dfs = func(b *ssa.BasicBlock) bool {
+				if seen[b] {
+					return false
+				}
+				seen[b] = true
+				if b == pf.Block() || b == pi.Block() {
+					return true
+				}
+				for _, s := range b.Succs {
+					if dfs(s) {
+						return true
+					}
+				}
+				return false
+			}
+			return dfs(b)
+		}
+		for _, b := range rv.Blocks {
+			ifi, isIf := b.Instrs[len(b.Instrs)-1].(*ssa.If)
+			if !isIf || b == pf.Block() {
+				continue
+			}
+			tokTest := derivedFromTok(ifi.Cond)
+			piTest := derivedFromPi(ifi.Cond)
+			if !tokTest && !piTest {
+				continue
+			}
+			if tokTest && !piTest {
+				// a test of the token's text counts when it stands between the token and the conversions, or is the
+				// verdict that follows a failed ParseInt
+				if !reachesConv(b) && !(pi.Block().Dominates(b)) {
+					continue
+				}
+				if base[ifi] {
+					continue
+				}
+			}
+			// a test made after ParseFloat was tried is about ParseFloat's answer, not a way round it
+			if pf.Block().Dominates(b) {
+				continue
+			}
+			for _, s := range b.Succs {
+				if escapes(b, s) {
+					bad = c.pos(ifi.Pos())
+					if !ifi.Pos().IsValid() {
+						bad = c.pos(valPosInstr(b))
+					}
+				}
+			}
+		}
+	}
 	r.check("C18.NUM", "(*parser).readValue: ParseFloat is tried for every number token that is not an integer", pf.Pos(), bad == "" && pi != nil,
-		fmt.Sprintf("the ParseFloat call depends on a test of the token's text (at %s) other than ParseInt's failure: a float the writer prints without a decimal point (1e-05) is rejected when read back", bad))
+		fmt.Sprintf("a test of the token's text or of ParseInt's error (at %s), other than ParseInt's plain failure, decides whether ParseFloat is tried: a float the writer prints without a decimal point (1e-05) is rejected when read back", bad))
 	// writer side
 	okFmt := false
 	if wv := c.fn("writeValue"); wv != nil {
